@@ -2059,3 +2059,313 @@ Proof.
     intros i. destruct HL1 as (_ & _ & HCv & _). destruct (h1 i) eqn:E; [|reflexivity]. exfalso.
     apply (HCv i). rewrite E. discriminate.
 Qed.
+
+(* ------------------------------------------------------------------ *)
+(* the forest a state denotes, computed from the pointers               *)
+
+Definition abs_forest (c : cstate) : list rt :=
+  flat_map (fun r => abs_list (fuel_of (ts c)) (heap_of (ts c)) (Some r)) (roots_of c).
+
+Theorem abs_forest_inv c F : Inv (ts c) (det c) F -> abs_forest c = F.
+Proof.
+  intros HI. pose proof (inv_sizes _ _ _ HI) as [_ Hsz]. destruct HI as ((HF & _) & Hroots & _).
+  unfold abs_forest. change (roots_of c) with (roots (ts c) (det c)). rewrite <- Hroots.
+  clear Hroots. induction F as [|tr F IH]; [reflexivity|].
+  apply Forall_cons_iff in HF as [Htr HF]. cbn [map flat_map].
+  change (Some (rid tr)) with (head_id [tr]).
+  rewrite (abs_rep (heap_of (ts c)) (fuel_of (ts c)) [tr] None None); [|cbn [rep_l]; auto|].
+  - cbn [app]. f_equal. apply IH; [exact HF|]. intros tn Hin. apply Hsz. simpl. auto.
+  - specialize (Hsz tr (or_introl eq_refl)). unfold fuel_of, size_l. simpl. lia.
+Qed.
+
+(* ------------------------------------------------------------------ *)
+(* the readable specifications agree with the replacement form          *)
+
+Lemma append_merge_notin p n :
+  (forall t, ~ In p (ids t) -> append_merge_t t p n = t) /\
+  (forall ts, ~ In p (ids_l ts) -> map (fun t => append_merge_t t p n) ts = ts).
+Proof.
+  apply rt_mut_ind.
+  - intros i d cs IH H. rewrite ids_unfold in H. cbn [append_merge_t]. destruct (N.eqb_spec i p) as [->|_]; [exfalso; apply H; simpl; auto|].
+    rewrite IH; [reflexivity|]. intro; apply H; simpl; auto.
+  - reflexivity.
+  - intros t ts IHt IHts H. rewrite ids_l_cons in H. cbn [map].
+    rewrite IHt, IHts; [reflexivity | |]; intro; apply H, in_or_app; auto.
+Qed.
+
+Lemma append_merge_replace p n :
+  (forall t d cs, NoDup (ids t) -> find_t p t = Some (R p d cs) ->
+     append_merge_t t p n = replace_t p (R p d (snoc_merge cs n)) t) /\
+  (forall ts d cs, NoDup (ids_l ts) -> find_l p ts = Some (R p d cs) ->
+     map (fun t => append_merge_t t p n) ts = map (replace_t p (R p d (snoc_merge cs n))) ts).
+Proof.
+  apply rt_mut_ind.
+  - intros i d0 cs0 IH d cs Hnd. rewrite find_t_unfold. cbn [append_merge_t replace_t].
+    destruct (N.eqb_spec i p) as [->|Hne]; [intros [= <- <-]; reflexivity|].
+    intros Hf. rewrite ids_unfold in Hnd. apply NoDup_cons_iff in Hnd as [_ Hnd].
+    rewrite (IH d cs Hnd Hf). reflexivity.
+  - discriminate.
+  - intros t ts IHt IHts d cs Hnd. rewrite find_l_cons, ids_l_cons in *. apply NoDup_app_iff in Hnd as (N1 & N2 & N3).
+    cbn [map]. destruct (find_t p t) eqn:E.
+    + intros [= ->]. rewrite (IHt d cs N1 eq_refl).
+      assert (Hn : ~ In p (ids_l ts)) by (apply N3; exact (proj1 (proj2 (proj1 (find_some p) _ _ E)))).
+      rewrite (proj2 (append_merge_notin p n) ts Hn).
+      pose proof (proj1 (proj2 (replace_notin p (R p d (snoc_merge cs n))) ts Hn)) as E2. unfold replace_l in E2. rewrite E2. reflexivity.
+    + intros Hf. assert (Hn : ~ In p (ids t)) by exact (proj1 (find_none p) t E).
+      rewrite (proj1 (append_merge_notin p n) t Hn), (proj1 (proj1 (replace_notin p _) t Hn)).
+      rewrite (IHts d cs N2 Hf). reflexivity.
+Qed.
+
+Lemma remove_notin x :
+  (forall t, ~ In x (ids t) -> remove_t x t = t) /\ (forall ts, ~ In x (ids_l ts) -> remove_l x ts = ts).
+Proof.
+  apply rt_mut_ind.
+  - intros i d cs IH H. rewrite ids_unfold in H. cbn [remove_t]. fold (remove_l x cs). rewrite IH; [reflexivity|].
+    intro; apply H; simpl; auto.
+  - reflexivity.
+  - intros t ts IHt IHts H. rewrite ids_l_cons in H. unfold remove_l in *. cbn [map filter].
+    rewrite IHt by (intro; apply H, in_or_app; auto).
+    destruct (N.eqb_spec (rid t) x) as [E|_]; [exfalso; apply H, in_or_app; left; rewrite <- E; apply rid_in_ids|].
+    cbn [negb]. rewrite IHts; [reflexivity|]. intro; apply H, in_or_app; auto.
+Qed.
+
+Lemma rid_remove_t x t : rid (remove_t x t) = rid t.
+Proof. destruct t; reflexivity. Qed.
+
+Lemma remove_l_app x a b : remove_l x (a ++ b) = remove_l x a ++ remove_l x b.
+Proof. unfold remove_l. rewrite map_app, filter_app. reflexivity. Qed.
+
+Lemma remove_at x ls tx rs : NoDup (ids_l (ls ++ tx :: rs)) -> rid tx = x -> remove_l x (ls ++ tx :: rs) = ls ++ rs.
+Proof.
+  intros Hnd Hr. rewrite ids_l_mid in Hnd. destruct (nodup_mid _ _ _ Hnd) as (N1 & N2 & N3).
+  assert (Hx : In x (ids tx)) by (rewrite <- Hr; apply rid_in_ids).
+  assert (Hl : ~ In x (ids_l ls)) by (intro; apply (N3 x Hx), in_or_app; auto).
+  assert (Hrs : ~ In x (ids_l rs)) by (intro; apply (N3 x Hx), in_or_app; auto).
+  change (tx :: rs) with ([tx] ++ rs). rewrite !remove_l_app, (proj2 (remove_notin x) ls Hl), (proj2 (remove_notin x) rs Hrs).
+  unfold remove_l. cbn [map filter]. rewrite rid_remove_t, Hr, N.eqb_refl. reflexivity.
+Qed.
+
+Lemma remove_l_cons x c rest : remove_l x (c :: rest) =
+  (if negb (rid c =? x) then [remove_t x c] else []) ++ remove_l x rest.
+Proof. unfold remove_l. cbn [map filter]. rewrite rid_remove_t. destruct (negb (rid c =? x)); reflexivity. Qed.
+
+Lemma remove_replace x q dq ls tx rs : rid tx = x ->
+  (forall t, NoDup (ids t) -> find_t q t = Some (R q dq (ls ++ tx :: rs)) ->
+     remove_t x t = replace_t q (R q dq (ls ++ rs)) t /\ x <> rid t) /\
+  (forall ts, NoDup (ids_l ts) -> find_l q ts = Some (R q dq (ls ++ tx :: rs)) ->
+     remove_l x ts = replace_l q (R q dq (ls ++ rs)) ts).
+Proof.
+  intros Hr.
+  assert (Hxs : In x (ids_l (ls ++ tx :: rs))) by (rewrite ids_l_mid; apply in_or_app; right; apply in_or_app; left; rewrite <- Hr; apply rid_in_ids).
+  apply rt_mut_ind.
+  - intros i d cs IH Hnd. rewrite find_t_unfold. rewrite ids_unfold in Hnd. apply NoDup_cons_iff in Hnd as [Hni Hnd].
+    cbn [replace_t rid]. change (remove_t x (R i d cs)) with (R i d (remove_l x cs)).
+    destruct (N.eqb_spec i q) as [->|Hne].
+    + intros [= -> ->]. rewrite (remove_at x ls tx rs Hnd Hr). split; [reflexivity|]. intros ->. exact (Hni Hxs).
+    + intros Hf. rewrite (IH Hnd Hf). split; [reflexivity|]. intros ->. apply Hni.
+      apply (proj2 (proj2 (proj2 (find_some q) _ _ Hf))). simpl. auto.
+  - discriminate.
+  - intros t ts IHt IHts Hnd. rewrite find_l_cons, ids_l_cons in *. apply NoDup_app_iff in Hnd as (N1 & N2 & N3).
+    rewrite remove_l_cons. unfold replace_l. cbn [map]. fold (replace_l q (R q dq (ls ++ rs)) ts).
+    destruct (find_t q t) eqn:E.
+    + intros [= ->]. destruct (IHt N1 eq_refl) as [E1 E2]. rewrite E1.
+      destruct (N.eqb_spec (rid t) x) as [Heq|_]; [congruence|]. cbn [negb app].
+      destruct (proj1 (find_some q) _ _ E) as (_ & Hq & Hsub).
+      assert (Hxt : In x (ids t)) by (apply Hsub; simpl; auto).
+      rewrite (proj2 (remove_notin x) ts (N3 x Hxt)), (proj1 (proj2 (replace_notin q _) ts (N3 q Hq))). reflexivity.
+    + intros Hf. destruct (proj2 (find_some q) _ _ Hf) as (_ & Hq & Hsub).
+      assert (Hxts : In x (ids_l ts)) by (apply Hsub; simpl; auto).
+      assert (Hxt : ~ In x (ids t)) by (intros H; exact (N3 x H Hxts)).
+      assert (Hqt : ~ In q (ids t)) by exact (proj1 (find_none q) t E).
+      rewrite (proj1 (remove_notin x) t Hxt), (proj1 (proj1 (replace_notin q _) t Hqt)).
+      destruct (N.eqb_spec (rid t) x) as [Heq|_]; [exfalso; apply Hxt; rewrite <- Heq; apply rid_in_ids|]. cbn [negb app].
+      rewrite (IHts N2 Hf). reflexivity.
+Qed.
+
+Lemma find_compose q y s' :
+  (forall t s, NoDup (ids t) -> find_t q t = Some s -> find_t y s = Some s' -> find_t y t = Some s') /\
+  (forall ts s, NoDup (ids_l ts) -> find_l q ts = Some s -> find_t y s = Some s' -> find_l y ts = Some s').
+Proof.
+  apply rt_mut_ind.
+  - intros i d cs IH s Hnd. rewrite find_t_unfold. destruct (N.eqb_spec i q) as [->|Hne]; [intros [= <-]; auto|].
+    intros Hf Hy. rewrite ids_unfold in Hnd. apply NoDup_cons_iff in Hnd as [Hni Hnd].
+    rewrite find_t_unfold. destruct (N.eqb_spec i y) as [->|_]; [|eauto].
+    exfalso. apply Hni. apply (proj2 (proj2 (proj2 (find_some q) _ _ Hf))). exact (proj1 (proj2 (proj1 (find_some y) _ _ Hy))).
+  - discriminate.
+  - intros t ts IHt IHts s Hnd. rewrite !find_l_cons, ids_l_cons in *. apply NoDup_app_iff in Hnd as (N1 & N2 & N3).
+    destruct (find_t q t) eqn:E.
+    + intros [= ->] Hy. rewrite (IHt s N1 eq_refl Hy). reflexivity.
+    + intros Hf Hy. assert (Hyt : In y (ids_l ts)).
+      { apply (proj2 (proj2 (proj2 (find_some q) _ _ Hf))). exact (proj1 (proj2 (proj1 (find_some y) _ _ Hy))). }
+      rewrite (proj1 (find_notin y) t); [eauto|]. intros H. exact (N3 y H Hyt).
+Qed.
+
+Lemma find_child x ls tx rs q dq : rid tx = x -> NoDup (ids (R q dq (ls ++ tx :: rs))) ->
+  find_t x (R q dq (ls ++ tx :: rs)) = Some tx.
+Proof.
+  intros Hr Hnd. rewrite ids_unfold in Hnd. apply NoDup_cons_iff in Hnd as [Hni Hnd].
+  assert (Hx : In x (ids tx)) by (rewrite <- Hr; apply rid_in_ids).
+  rewrite find_t_unfold. destruct (N.eqb_spec q x) as [->|_].
+  - exfalso. apply Hni. rewrite ids_l_mid. apply in_or_app. right. apply in_or_app. auto.
+  - rewrite ids_l_mid in Hnd. destruct (nodup_mid _ _ _ Hnd) as (_ & _ & N3).
+    assert (Hl : ~ In x (ids_l ls)) by (intro; apply (N3 x Hx), in_or_app; auto).
+    clear - Hr Hl. induction ls as [|a ls IH].
+    + cbn [app]. rewrite find_l_cons. destruct tx as [i d cs]. cbn [rid] in Hr. subst i. rewrite find_t_unfold, N.eqb_refl. reflexivity.
+    + rewrite ids_l_cons in Hl. rewrite <- app_comm_cons, find_l_cons.
+      rewrite (proj1 (find_notin x) a) by (intro; apply Hl, in_or_app; auto). apply IH. intro; apply Hl, in_or_app; auto.
+Qed.
+
+(* wbxml_tree_add_node of a detached sub-tree below a node elsewhere: the specification *)
+Theorem add_node_spec fuel t det F1 tn F2 q :
+  Inv t det (F1 ++ tn :: F2) -> In (rid tn) det -> In q (ids_l (F1 ++ F2)) ->
+  parent_ok (heap_of t) (Some q) = true -> (fuel_of t <= fuel)%nat ->
+  exists t', add_node fuel t (Some q) (rid tn) = TOk t' /\
+             Inv t' (remove_id (rid tn) det) (append_merge (F1 ++ F2) q tn).
+Proof.
+  intros HI Hm Hqin Hp Hfuel. destruct HI as (HL & Hroots & Hb).
+  destruct (parent_ok_some _ _ Hp) as (pn & Hq & Hqt).
+  pose proof HL as (HF & HN & HCv & HLf).
+  apply Forall_app in HF as [HF1 HF2]. apply Forall_cons_iff in HF2 as [Htn HF2].
+  destruct (proj2 (find_in q) _ Hqin) as (sub & Hfind).
+  assert (HF12 : Forall (rep_t (heap_of t) None None None) (F1 ++ F2)) by (apply Forall_app; auto).
+  destruct (find_rep_forest _ _ _ _ HF12 Hfind) as (par & prev & nxt & Hsubr).
+  destruct (proj2 (find_some q) _ _ Hfind) as (Hsr & _ & Hsubin).
+  destruct sub as [q' ds cs]. cbn [rid] in Hsr. subst q'. apply rep_t_unfold in Hsubr as [Hq' _].
+  rewrite Hq in Hq'. injection Hq' as ->. cbn [n_data] in Hqt.
+  rewrite ids_l_mid in HN. destruct (nodup_mid _ _ _ HN) as (N12 & _ & _). rewrite <- ids_l_app in N12.
+  destruct (add_node_forest fuel t F1 tn F2 q (R q ds cs) HL Hfind Hqt) as (h' & Hrun & HL' & Hincl & _).
+  { destruct (proj2 (ids_replace_split q (R q ds cs)) _ _ Hfind N12) as (A & B & EA & _ & _).
+    assert (Hlen : (length (ids_l (F1 ++ F2)) <= N.to_nat (fresh t))%nat).
+    { apply bounded_nodup_length; [exact N12|]. intros i Hi. apply Hb. rewrite ids_l_mid. rewrite ids_l_app in Hi.
+      clear - Hi. in_norm. tauto. }
+    rewrite EA, !app_length, ids_unfold in Hlen. cbn [length rkids] in *. rewrite <- (proj2 size_ids) in Hlen.
+    pose proof (length_le_size_l cs). unfold fuel_of in Hfuel. lia. }
+  exists (with_heap t h'). split; [exact Hrun|].
+  unfold append_merge. rewrite (proj2 (append_merge_replace q tn) (F1 ++ F2) ds cs N12 Hfind).
+  cbn [rdata rkids] in HL'. split; [exact HL'|]. split.
+  - fold (replace_l q (R q ds (snoc_merge cs tn)) (F1 ++ F2)). rewrite map_rid_replace by reflexivity. cbn [root with_heap].
+    rewrite <- ids_l_mid in HN. exact (roots_remove t det F1 tn F2 Hroots HN Hm).
+  - intros i Hi. cbn [fresh with_heap]. apply Hb, Hincl, Hi.
+Qed.
+
+(* wbxml_tree_extract_node of a node that is not a root: exactly its sub-tree leaves the forest *)
+Theorem extract_spec t det F x :
+  Inv t det F -> In x (ids_l F) -> ~ In x (map rid F) ->
+  exists t' sub, extract_node t x = TOk t' /\ find_l x F = Some sub /\
+                 Inv t' (det ++ [x]) (remove_l x F ++ [sub]).
+Proof.
+  intros (HL & Hroots & Hb) Hin Hnr.
+  destruct (extract_forest t F x HL Hin Hnr) as (h' & q & dq & ls & tx & rs & Hrun & Hfind & Hrid & HL' & Hincl).
+  pose proof HL as (_ & HN & _).
+  destruct (proj2 (ids_replace_split q (R q dq (ls ++ rs))) _ _ Hfind HN) as (A & B & EA & _ & _).
+  assert (Nsub : NoDup (ids (R q dq (ls ++ tx :: rs)))) by (rewrite EA in HN; apply nodup_mid in HN; tauto).
+  eexists _, tx. split; [exact Hrun|]. split.
+  - exact (proj2 (find_compose q x tx) F _ HN Hfind (find_child x ls tx rs q dq Hrid Nsub)).
+  - rewrite (proj2 (remove_replace x q dq ls tx rs Hrid) F HN Hfind). split; [exact HL'|]. split.
+    + rewrite map_app, map_rid_replace by reflexivity. cbn [map]. rewrite Hrid, Hroots. unfold roots. cbn [root].
+      rewrite app_assoc. reflexivity.
+    + intros i Hi. cbn [fresh]. apply Hb, Hincl, Hi.
+Qed.
+
+Theorem destroy_spec fuel t det F1 tn F2 :
+  Inv t det (F1 ++ tn :: F2) -> (2 * size tn <= fuel)%nat ->
+  exists h' rel, destroy_all fuel (heap_of t) (rid tn) = TOk (h', rel) /\
+     Permutation rel (ids tn) /\ NoDup rel /\
+     (forall i, h' i = if mem i (ids tn) then None else heap_of t i) /\ Links h' (F1 ++ F2).
+Proof.
+  intros (HL & _) Hfuel. destruct (destroy_forest fuel (heap_of t) F1 tn F2 HL Hfuel) as (h' & Hrun & HL' & E).
+  exists h', (rev (postorder tn)). split; [exact Hrun|].
+  assert (P : Permutation (rev (postorder tn)) (ids tn)) by (rewrite <- Permutation_rev; apply postorder_perm).
+  split; [exact P|]. split; [|split; [exact E | exact HL']].
+  eapply Permutation_NoDup; [symmetry; exact P|]. destruct HL as (_ & HN & _). rewrite ids_l_mid in HN.
+  apply nodup_mid in HN. tauto.
+Qed.
+
+(* the links of every node are mutually consistent *)
+Lemma first_child_rep h par nxt c rest : rep_l h par None nxt (c :: rest) ->
+  exists cn, h (rid c) = Some cn /\ n_parent cn = par /\ n_prev cn = None.
+Proof.
+  rewrite rep_l_cons. intros [H _]. destruct c as [i d cs]. apply rep_t_unfold in H as [H _]. eexists. split; [exact H|]. auto.
+Qed.
+
+Theorem links_pointwise h F : Links h F -> forall i nd, h i = Some nd ->
+  (forall c, n_children nd = Some c -> exists cn, h c = Some cn /\ n_parent cn = Some i /\ n_prev cn = None) /\
+  (forall x, n_next nd = Some x -> exists xn, h x = Some xn /\ n_prev xn = Some i /\ n_parent xn = n_parent nd) /\
+  (forall pv, n_prev nd = Some pv -> exists pn, h pv = Some pn /\ n_next pn = Some i /\ n_parent pn = n_parent nd) /\
+  (forall p, n_parent nd = Some p -> exists pn, h p = Some pn /\ (n_prev nd = None -> n_children pn = Some i)) /\
+  (n_parent nd = None -> n_next nd = None /\ n_prev nd = None).
+Proof.
+  intros (HF & HN & HC & _) i nd Hi.
+  assert (Hin : In i (ids_l F)) by (apply HC; rewrite Hi; discriminate).
+  assert (Hkids : forall d par prev nxt cs, h i = Some (mkN d par (head_id cs) nxt prev) -> rep_l h (Some i) None None cs ->
+            forall c, n_children nd = Some c -> exists cn, h c = Some cn /\ n_parent cn = Some i /\ n_prev cn = None).
+  { intros d par prev nxt cs E Hr c Hc. rewrite Hi in E. injection E as ->. cbn [n_children] in Hc.
+    destruct cs as [|c0 cs]; [discriminate|]. cbn [head_id] in Hc. injection Hc as <-.
+    exact (first_child_rep h (Some i) None c0 cs Hr). }
+  destruct (proj2 (find_parent i) F HN Hin) as [(ls & tx & rs & E & Hr)|(q & dq & ls & tx & rs & Hfind & Hr)].
+  - (* a root *)
+    subst F. apply Forall_app in HF as [_ HF]. apply Forall_cons_iff in HF as [Htx _].
+    destruct tx as [i' d cs]. cbn [rid] in Hr. subst i'. apply rep_t_unfold in Htx as [E Hcs].
+    split; [exact (Hkids _ _ _ _ _ E Hcs)|]. rewrite Hi in E. injection E as ->. cbn [n_next n_prev n_parent].
+    split; [discriminate|]. split; [discriminate|]. split; [discriminate | auto].
+  - destruct (find_rep_forest _ _ _ _ HF Hfind) as (parq & prevq & nxtq & Hsub).
+    destruct (proj2 (ids_replace_split q (R q dq [])) _ _ Hfind HN) as (A & B & EA & _ & _).
+    assert (Nsub : NoDup (ids (R q dq (ls ++ tx :: rs)))) by (rewrite EA in HN; apply nodup_mid in HN; tauto).
+    destruct tx as [i' dx xcs]. cbn [rid] in Hr. subst i'.
+    destruct (ex_facts (mkT h None 0 0) q i dq dx parq prevq nxtq ls rs xcs Hsub Nsub)
+      as (Q1 & Q3 & Q2 & Q5 & Q4 & _). cbn [heap_of] in *.
+    split; [exact (Hkids _ _ _ _ _ Q3 Q5)|]. rewrite Hi in Q3. injection Q3 as ->. cbn [n_next n_prev n_parent].
+    split; [|split; [|split; [|discriminate]]].
+    + intros x Hx. destruct rs as [|r0 rs]; [discriminate|]. cbn [head_or] in Hx. injection Hx as <-.
+      apply rep_l_cons in Q4 as [Q4 _]. destruct r0 as [x d0 c0]. apply rep_t_unfold in Q4 as [Q4 _]. eexists. split; [exact Q4|]. auto.
+    + intros pv Hpv. destruct (rev_cases ls) as [->|(l0 & lp & ->)]; [discriminate|].
+      rewrite last_or_app in Hpv. injection Hpv as <-. apply rep_l_app in Q2 as [_ Q2]. cbn [rep_l] in Q2. destruct Q2 as [Q2 _].
+      destruct lp as [pv d0 c0]. apply rep_t_unfold in Q2 as [Q2 _]. eexists. split; [exact Q2|]. auto.
+    + intros p [= <-]. eexists. split; [exact Q1|]. intros Hp. cbn [n_children].
+      destruct (rev_cases ls) as [->|(l0 & lp & ->)]; [reflexivity|]. rewrite last_or_app in Hp. discriminate.
+Qed.
+
+(* D17: extraction of an element between two text nodes leaves them adjacent *)
+Definition l_plain : tlang := mk_tlang 0 None None None.
+Definition d17_prefix : list op :=
+  [OpAddXmlElt None [112] [] []; OpAddText (Some 0) [97; 97]; OpAddXmlElt (Some 0) [98] [] []; OpAddText (Some 0) [98; 98]].
+
+Theorem extract_merge_refuted :
+  exists c c', run l_plain init_state d17_prefix = TOk c /\ CLinks c /\ no_adjacent_text (abs_forest c) = true /\
+               exec l_plain c (OpExtract 2) = TOk (c', true) /\ CLinks c' /\ no_adjacent_text (abs_forest c') = false.
+Proof.
+  destruct (run_links l_plain d17_prefix init_state init_links) as (c & Hrun & HC).
+  destruct (exec_links l_plain c (OpExtract 2) HC) as (c' & b & Hex & HC').
+  exists c, c'. split; [exact Hrun|]. split; [exact HC|].
+  assert (E : run l_plain init_state d17_prefix = TOk c) by exact Hrun.
+  vm_compute in Hrun. injection Hrun as <-.
+  split; [vm_compute; reflexivity|]. split; [|split; [exact HC'|]].
+  - vm_compute in Hex. vm_compute. injection Hex as <- <-. reflexivity.
+  - vm_compute in Hex. injection Hex as <- <-. vm_compute. reflexivity.
+Qed.
+
+(* the encoder's walk over the pointers is a function of the shape the pointers denote *)
+Definition tree_of (c : cstate) : option rt :=
+  match root (ts c) with Some _ => hd_error (abs_forest c) | None => None end.
+
+Theorem enc_walk_shape c tr : CLinks c -> tree_of c = Some tr ->
+  enc_walk (S (fuel_of (ts c))) (heap_of (ts c)) (root (ts c)) = TOk (events (erase tr)).
+Proof.
+  intros HC Ht. apply CLinks_Inv in HC as (F & HI). unfold tree_of in Ht. rewrite (abs_forest_inv c F HI) in Ht.
+  pose proof (inv_sizes _ _ _ HI) as [_ Hsz]. destruct HI as ((HF & _) & Hroots & _).
+  destruct (root (ts c)) as [r|] eqn:Er; [|discriminate]. destruct F as [|tr' Fd]; [discriminate|].
+  cbn [hd_error] in Ht. injection Ht as ->. unfold roots_of in Hroots. rewrite Er in Hroots. cbn [map app] in Hroots.
+  injection Hroots as Hr _. subst r. apply Forall_cons_iff in HF as [Htr _].
+  change (Some (rid tr)) with (head_id [tr]).
+  rewrite (enc_walk_rep (heap_of (ts c)) (S (fuel_of (ts c))) [tr] None None); [|cbn [rep_l]; auto|].
+  - cbn [map flat_map]. rewrite app_nil_r. reflexivity.
+  - specialize (Hsz tr (or_introl eq_refl)). unfold fuel_of, size_l. simpl. lia.
+Qed.
+
+Corollary equal_shapes_equal_walks c1 c2 tr1 tr2 :
+  CLinks c1 -> CLinks c2 -> tree_of c1 = Some tr1 -> tree_of c2 = Some tr2 -> erase tr1 = erase tr2 ->
+  enc_walk (S (fuel_of (ts c1))) (heap_of (ts c1)) (root (ts c1)) =
+  enc_walk (S (fuel_of (ts c2))) (heap_of (ts c2)) (root (ts c2)).
+Proof.
+  intros H1 H2 T1 T2 E. rewrite (enc_walk_shape c1 tr1 H1 T1), (enc_walk_shape c2 tr2 H2 T2), E. reflexivity.
+Qed.
